@@ -319,6 +319,21 @@ func ReportPQ(r *core.Run, rejects []core.Reject, mineList []string) {
 	}
 }
 
+// explorePQ runs the exhaustive PQ.tla configuration of the tier in the background.
+func explorePQ(r *core.Run) func() {
+	cfg := "MC_PQ_q.cfg"
+	if r.Thorough() {
+		cfg = "MC_PQ_t.cfg"
+	}
+	var wg sync.WaitGroup
+	wg.Add(1)
+	go func() {
+		defer wg.Done()
+		r.Explore(core.TLCOpts{Module: "MC_PQ", Config: cfg, Timeout: 40 * time.Minute, HeapMB: 12000, Workers: 8, Coverage: r.Thorough()})
+	}()
+	return wg.Wait
+}
+
 func pqCfgs(r *core.Run, name string, n int, f func(i int, c *QCfg)) []QCfg {
 	var out []QCfg
 	for i := 0; i < n; i++ {
@@ -347,6 +362,7 @@ func pqCfgs(r *core.Run, name string, n int, f func(i int, c *QCfg)) []QCfg {
 
 // CheckC05: queue FIFO, exactly once, byte-identical.
 func CheckC05(r *core.Run) {
+	defer explorePQ(r)()
 	r.Rule = "random producer/consumer histories over event-size classes around page and header boundaries (1 byte .. 5 pages), Write chunkings with flushes inside events, partial reads and skips, page sizes 1024/4096, write buffers 0/16KiB, reopen; every RNext size, every byte returned by RRead (content identifies the event id) and the read cursor are judged by PQTrace.tla (Fifo, ReadBytes, EventSize, WriteAccepted); distinct = configurations/seeds"
 	cfgs := pqCfgs(r, "c05", r.Pick(32, 200), func(i int, c *QCfg) { c.Steps = r.Pick(150, 400) })
 	traces := queueHistories(r, cfgs)
@@ -356,6 +372,7 @@ func CheckC05(r *core.Run) {
 
 // CheckC17: counters and callbacks.
 func CheckC17(r *core.Run) {
+	defer explorePQ(r)()
 	r.Rule = "random producer/consumer/reopen histories; Pending, Active, Reader.Available and the Flushed/ACKed callback totals are judged by PQTrace.tla (PendingActive, Available, FlushedCallback, ACKedCallback) at every point they are observed; distinct = configurations/seeds"
 	cfgs := pqCfgs(r, "c17", r.Pick(32, 200), func(i int, c *QCfg) {
 		c.Steps = r.Pick(150, 400)
@@ -445,6 +462,7 @@ func RunFillDrain(c QCfg, cycles int) (tr *core.Trace, env *qenv.Env) {
 
 // CheckC12: the queue reclaims space, reports full without loss, can always be drained.
 func CheckC12(r *core.Run) {
+	defer explorePQ(r)()
 	r.Rule = "fill-to-error / drain cycles on small bounded files (64..256 pages, page sizes 1024/4096, write buffers 0/16KiB, event-size mixes incl. multi-page events); PQTrace.tla judges: errors only when the file is full and without loss (the buffered events are delivered in order after space was freed), reading and ACK succeed on the full file, and after every ACK the pages held (queue header inuse, FileStats.DataAllocated) and the file extent stay within SpaceBound (span of the un-ACKed events plus the most recent ACKed event plus a constant); distinct = configurations/seeds"
 	n := r.Pick(20, 120)
 	var traces []*core.Trace
